@@ -19,6 +19,14 @@ claimed={
          "strings <= 6 bytes whose first byte is not the in-band NULL marker 0xAD (never the first byte of valid UTF-8); doubles not yet covered"),
  "C15": ("Export from any exportable stream state and import around another connection: all fields the send/receive paths read agree, an untouched peer exchanges protected frames with the imported stream both ways and the result is exportable again (inductive over hand-offs); export refused exactly on the nine documented conditions; truncated / bad-magic / wrong-version blobs rejected.", "5.C15",
          "ideal AEAD; peer address <= 8 bytes; payloads <= 4 KiB in the continuation step"),
+ "C03": ("Handshake decided piecewise on the real code: negotiateSecurity+handleClientAuthentication / handleServerAuthentication (arbitrary parsed peer configuration, arbitrary bitmask replies, nondeterministic method outcome), negotiateSecurity+setupStreamEncryption (arbitrary peer levels, cipher lists, key presence, either ECDH outcome), and glue harnesses showing performFullAuthentication / ServerHandshakeWithMessage run the three steps once, in order, on the returned negotiation.", "5.C03",
+         "method bodies, ECDH and HKDF replaced by nondeterministic stubs through overlay seams (same stubs natively in replay); message layer replaced by typed item queues; <= 2 methods per list, <= 2 retry rounds"),
+ "C06": ("handleSessionResumption over a cache of 1-2 arbitrary sessions (+ global-cache fallback) and an arbitrary request; resumeSession with an arbitrary cached entry and arbitrary reply; one arbitrary cache operation followed by every lookup (dead sessions unreachable by every route).", "5.C06",
+         "ids <= 4 bytes; clock readings within one minute of each other; expiry either >= 1 s in the past or >= 1 h ahead; replay of a recorded resumed connection (two connections) not yet covered"),
+ "C07": ("A session filed by the real storeClientSession under (tag, server, valid commands) and a later ClientHandshake with arbitrary (tag', server', command') on the same cache: it rides the session iff all three match; failed resumption and invalidation drop every route (shared with C06 harnesses).", "5.C07",
+         "tags <= 3 bytes and addresses <= 4 bytes without ',' '{' '}' (the Sprintf key is not injective otherwise); exact decimal rendering for |n| < 10^18"),
+ "C10": ("Real negotiateSecurity against an independently written decision table over all level pairs and method / cipher lists of length 0-2 (authentication half and encryption half).", "5.C10",
+         "two-party agreement (both endpoints report the same outcome) and the retry loop are not yet covered"),
 }
 checks=[]
 for i in ids:
